@@ -50,3 +50,26 @@ package schema
 //@ immutable Field.IndirectFieldType
 //@   writers schema.(*Schema).ParseField
 //@   tags C08
+
+//@ # ---------- a parsed field's identity and permissions do not change after parsing ----------
+//@ immutable Field.DBName
+//@   writers schema.(*Schema).ParseField schema.ParseWithSpecialTableName
+//@   tags C10
+//@ immutable Field.Name
+//@   writers schema.(*Schema).ParseField
+//@   tags C10
+//@ immutable Field.AutoUpdateTime
+//@   writers schema.(*Schema).ParseField
+//@   tags C10
+//@ immutable Field.AutoCreateTime
+//@   writers schema.(*Schema).ParseField
+//@   tags C10
+//@ immutable Field.Updatable
+//@   writers schema.(*Schema).ParseField
+//@   tags C10
+//@ immutable Field.Creatable
+//@   writers schema.(*Schema).ParseField
+//@   tags C10
+//@ immutable Field.PrimaryKey
+//@   writers schema.(*Schema).ParseField schema.ParseWithSpecialTableName
+//@   tags C10
